@@ -71,6 +71,10 @@ def monitor(impl: str, name: str, cfg, obs: List[Dict[str, Any]], vb: VB, wit, s
             if p <= c0 and not (isr & bit) and "isr_clear" not in name and "|clr|" not in name and not name.startswith("rst|"):      # RESET clears the status register
                 vb.add(f"C13/machine/{impl}/crossed-boundary-without-status-bit/{tname}", f"{impl} {name}: step {k}: counter {c0}->{c1} passed the {tname} "
                        f"boundary {p} but ISR={isr:#04x}", wit)
+            if nxt != p and not (isr & bit) and "isr_clear" not in name and "|clr|" not in name and not name.startswith("rst|"):
+                # the timer moved its target past a boundary (it counts the boundary as fired): "firing sets the corresponding status bit"
+                vb.add(f"C13/machine/{impl}/fired-without-status-bit/{tname}", f"{impl} {name}: step {k}: counter {c0}->{c1}, the {tname} target moved "
+                       f"{p}->{nxt} but ISR={isr:#04x} lacks the {tname} bit", wit)
             if newly and p > c1:
                 vb.add(f"C13/machine/{impl}/fired-without-boundary/{tname}", f"{impl} {name}: step {k}: {tname} status bit set between cycles "
                        f"{c0} and {c1} but the next boundary was {p}", wit)
